@@ -7,6 +7,7 @@
 //!   generate(&mut Rng, tier) -> Vec<Value>      inputs as JSON (so they replay exactly)
 //!   execute(&Value) -> String                    runs the implementation, returns a Gallina case
 //! With `--inputs FILE` (JSON lines) the generator is skipped: replay / corpus.
+mod c01;
 mod c03;
 mod c14;
 mod c13;
@@ -72,7 +73,7 @@ fn module(prop: &str) -> PropModule {
             std::process::exit(3);
         }
         "C08" => c08::module(),
-        "C01" => PropModule { coq_module: "Check_RR", runner: "Check_RR.run_C01", generate: |r, t| libgen::generate_mixed(r, t, 320), execute: lib_stage::execute, label: libgen::label },
+        "C01" => c01::module(),
         "C02" => PropModule { coq_module: "Check_RR", runner: "Check_RR.run_C02", generate: |r, t| libgen::generate_mixed(r, t, 320), execute: lib_stage::execute, label: libgen::label },
         "C06" => PropModule { coq_module: "Check_RR", runner: "Check_RR.run_C06", generate: |r, t| libgen::generate_mixed(r, t, 320), execute: lib_stage::execute, label: libgen::label },
         "C07" => PropModule { coq_module: "Check_RR", runner: "Check_RR.run_C07", generate: |r, t| libgen::generate_mixed(r, t, 320), execute: lib_stage::execute, label: libgen::label },
